@@ -2,8 +2,12 @@ package props
 
 import (
 	"fmt"
+	"os"
 	"strings"
+	"sync"
+	"sync/atomic"
 	"testing"
+	"time"
 
 	"github.com/aml-org/amf-custom-validator/pkg"
 	"github.com/aml-org/amf-custom-validator/pkg/config"
@@ -220,4 +224,70 @@ func TestC08Denied(t *testing.T) {
 		}
 	}
 	ev.RunFixed(t, "C08", cases, decideC08)
+}
+
+// TestC08Concurrent: the same denied profile text submitted by several goroutines a few milliseconds apart (a text
+// the process has never seen: a run-unique comment is appended). Whatever a first submission leaves behind while it
+// is still being compiled, every submission is rejected.
+type c08ConcCase struct {
+	Builtin  string `json:"builtin"`
+	Position string `json:"position"`
+	Syntax   string `json:"syntax"`
+	Entry    string `json:"entry"` // CompileProfile | Validate
+}
+
+var c08Nonce int64
+
+func decideC08Concurrent(c c08ConcCase) ev.Verdict {
+	reps := 1
+	if os.Getenv("VERIF_REPLAY") != "" {
+		reps = 20
+	}
+	for rep := 0; rep < reps; rep++ {
+		profile := c08Profile(c.Position, deniedCalls[c.Builtin], c.Syntax) + fmt.Sprintf("# submission %d-%d\n", os.Getpid(), atomic.AddInt64(&c08Nonce, 1))
+		const n = 10
+		outs := make([]call, n)
+		var wg sync.WaitGroup
+		for i := 0; i < n; i++ {
+			wg.Add(1)
+			go func(i int) {
+				defer wg.Done()
+				time.Sleep(time.Duration(i*i) * 300 * time.Microsecond) // 0 ... 24 ms: shapes the schedule, decides nothing
+				if c.Entry == "Validate" {
+					outs[i] = guard(func() (string, error) { return pkg.Validate(profile, c08Data, false, nil) })
+				} else {
+					_, outs[i] = compileProfile(profile)
+				}
+			}(i)
+		}
+		wg.Wait()
+		for i, r := range outs {
+			if r.Panic != "" {
+				return ev.Violation("c08-panic", "submission %d panicked: %s", i, r.Panic)
+			}
+			if r.Err == nil {
+				return ev.Violation("c08-accepted-concurrently:"+c.Builtin, "submission %d of %d concurrent %s calls with one profile calling %s (%s, %s) was accepted", i, n, c.Entry, c.Builtin, c.Position, c.Syntax)
+			}
+		}
+	}
+	return ev.Verdict{OK: true, NonTrivial: true, Labels: []string{"concurrent:" + c.Builtin, "concurrent-entry:" + c.Entry}}
+}
+
+func TestC08Concurrent(t *testing.T) {
+	shards, idx := shardEnv()
+	var cases []c08ConcCase
+	n := 0
+	for _, b := range deniedOrder {
+		for _, p := range []string{"top-rego", "extension-helper-function", "nested", "else"} {
+			for _, s := range []string{"statement", "with-replacement"} {
+				for _, e := range []string{"CompileProfile", "Validate"} {
+					n++
+					if n%shards == idx {
+						cases = append(cases, c08ConcCase{Builtin: b, Position: p, Syntax: s, Entry: e})
+					}
+				}
+			}
+		}
+	}
+	ev.RunFixed(t, "C08", cases, decideC08Concurrent)
 }
